@@ -1,5 +1,7 @@
 """Property-level driver for the deductive engine: verify contracts, cross-check them on CPython,
 triage refutations, compare with obligations.lock, report through ctx."""
+import contextlib
+import io
 import json
 import os
 import re
@@ -33,7 +35,8 @@ def concrete_run(contract, tier, limit=None):
     for label, thunk in contract.concrete(tier):
         n += 1
         try:
-            ok, obs, exp = thunk()
+            with contextlib.redirect_stdout(io.StringIO()):
+                ok, obs, exp = thunk()
         except Exception as e:        # the real code raised where the contract expects a result
             ok, obs, exp = False, '%s: %s' % (type(e).__name__, str(e)[:200]), 'no exception'
         if not ok and first is None:
